@@ -225,8 +225,9 @@ class BranchFeatures:
         vector = np.array([br[-1].xyz() - br[0].xyz() for br in branches])
         vector_dot = np.matmul(vector, vector.T)
         vector_norm = np.linalg.norm(vector, ord=2, axis=1, keepdims=True)
-        vector_norm_dot = np.matmul(vector_norm, vector_norm.T) + eps
-        arccos = np.clip(vector_dot / vector_norm_dot, -1, 1)
+        vector_norm_dot = np.matmul(vector_norm, vector_norm.T)
+        degenerate = vector_norm_dot == 0  # a zero-length branch: cos = 0
+        arccos = np.clip(vector_dot / np.where(degenerate, 1, vector_norm_dot), -1, 1)
         angle = np.arccos(arccos)
         return angle
 
